@@ -228,6 +228,11 @@ def rk_interpreted(ctx):
                 continue
             for sn in ("PLUS", "MINUS"):
                 specs.append((layout, sn))
+    # every letter of the alphabet, both cases: the whole genome as one block and as two / three blocks
+    n_ = len(GENOME)
+    for layout in (((0, n_),), ((0, 11), (11, n_)), ((0, 7), (9, 25), (25, n_))):
+        for sn in ("PLUS", "MINUS"):
+            specs.append((layout, sn))
     r.floor("C03.RK", "located sequences (layout x strand)", len(specs), 24)
 
     def work(spec):
